@@ -365,6 +365,17 @@ def as_str(v):
     raise ModelError('expected string, got %r' % (v,))
 
 
+def sbytes(v, what='string operation'):
+    """byte tuple of a Str, or of the text of a symbolic decimal when its digits are known"""
+    if isinstance(v, Str):
+        return v.b
+    if isinstance(v, DecStr):
+        if v.text is not None:
+            return v.text
+        raise Unsupported(what + ' on the text of a computed symbolic decimal')
+    raise ModelError('expected string, got %r' % (v,))
+
+
 @pattern(r'^<&?(str|std::string::String|String) as ToString>::to_string$')
 def str_to_string(it, args, callee):
     return as_str(args[0])
@@ -390,15 +401,12 @@ def string_new(it, args, callee):
 
 @model('core::str::<impl str>::len', 'std::string::String::len', 'String::len')
 def str_len(it, args, callee):
-    s = as_str(args[0])
-    if isinstance(s, DecStr):
-        raise Unsupported('len of symbolic decimal text')
-    return len(s.b)
+    return len(sbytes(as_str(args[0]), 'len'))
 
 
 @model('core::str::<impl str>::is_empty', 'std::string::String::is_empty')
 def str_is_empty(it, args, callee):
-    return len(as_str(args[0]).b) == 0
+    return len(sbytes(as_str(args[0]), 'is_empty')) == 0
 
 
 def encode_char(it, c):
@@ -432,18 +440,14 @@ def string_push_str(it, args, callee):
     r, t = args
     s = rd(r)
     t = as_str(t)
-    if isinstance(t, DecStr) or isinstance(s, DecStr):
-        raise Unsupported('push_str of symbolic decimal text')
-    wr(r, Str(s.b + t.b))
+    wr(r, Str(sbytes(s, 'push_str') + sbytes(t, 'push_str')))
     return UNIT
 
 
 @pattern(r'^<(std::string::)?String as Add<&str>>::add$')
 def string_add(it, args, callee):
     a, b = as_str(args[0]), as_str(args[1])
-    if isinstance(a, DecStr) or isinstance(b, DecStr):
-        raise Unsupported('concatenation of symbolic decimal text')
-    return Str(a.b + b.b)
+    return Str(sbytes(a, 'concatenation') + sbytes(b, 'concatenation'))
 
 
 def is_char_boundary(it, b, i):
@@ -516,12 +520,12 @@ def str_ends_with(it, args, callee):
 
 @model('core::str::<impl str>::char_indices')
 def str_char_indices(it, args, callee):
-    return CharIdx(as_str(args[0]).b, 0)
+    return CharIdx(sbytes(as_str(args[0]), 'chars'), 0)
 
 
 @model('core::str::<impl str>::chars')
 def str_chars(it, args, callee):
-    return CharIdx(as_str(args[0]).b, 0)
+    return CharIdx(sbytes(as_str(args[0]), 'chars'), 0)
 
 
 def decode_char(it, b, pos):
@@ -621,12 +625,12 @@ def str_parse_f64(it, args, callee):
 @pattern(r'^std::slice::<impl \[(std::string::)?String\]>::join::<&str>$')
 def slice_join(it, args, callee):
     items = deref_all(args[0]).items
-    sep = as_str(args[1]).b
+    sep = sbytes(as_str(args[1]), 'join')
     out = ()
     for i, x in enumerate(items):
         if i:
             out += sep
-        out += as_str(x).b
+        out += sbytes(as_str(x), 'join')
     return Str(out)
 
 
@@ -1103,7 +1107,24 @@ def dec_to_text(d):
 def dec_to_string(it, args, callee):
     d = deref_all(args[0])
     if is_sym(d.m):
-        return DecStr(d)
+        text = None
+        if d.src is not None:
+            neg, ints, fracs = d.src
+            ints = list(ints)
+            # Display strips leading zeros of the integer part (keeps one digit)
+            while len(ints) > 1:
+                b0 = ints[0]
+                z = (b0 == 0x30) if isinstance(b0, int) else it.truth(b0 == z3.BitVecVal(0x30, 8))
+                if not z:
+                    break
+                ints.pop(0)
+            if not ints:
+                ints = [0x30]
+            text = tuple(ints) + ((0x2E,) + tuple(fracs) if fracs else ())
+            if neg:
+                # "-0" style texts: sign is printed whenever the sign bit is set
+                text = (0x2D,) + text
+        return DecStr(d, text)
     return mkstr(dec_to_text(d))
 
 
@@ -1183,11 +1204,14 @@ def dec_from_str(it, args, callee):
     point = False
     data = 0
     scale = 0
+    ints = []
+    fracs = []
     while i < n:
         c = bs[i]
         if is_(c, 0x30, 0x39):
             dig = (c - 0x30) if isinstance(c, int) else z3.BV2Int(c - z3.BitVecVal(0x30, 8), False)
             data = data * 10 + dig
+            (fracs if point else ints).append(c)
             if point:
                 scale += 1
             has = True
@@ -1202,7 +1226,7 @@ def dec_from_str(it, args, callee):
         return Err(Opaque('rust_decimal::Error'))
     if is_sym(data):
         data = simp(data)
-    return Ok(Dec(-data if neg else data, scale))
+    return Ok(Dec(-data if neg else data, scale, (neg, tuple(ints), tuple(fracs))))
 
 
 def _from_int(ty):
